@@ -21,8 +21,9 @@
 (* the check's verdicts.  All SyltPipeline invariants are evaluated in     *)
 (* every state of every validated trace.                                   *)
 (*                                                                         *)
-(* The universe is decided HERE: for UNIVERSE = "tok20"/"tok31" record k   *)
-(* must carry exactly TokenStringAt(alphabet, idx), the indices must be    *)
+(* The universe is decided HERE: for UNIVERSE = tok20.raw|.top|.body or     *)
+(* tok31.raw|.top|.body record k must carry exactly                        *)
+(* TokenTextAt(alphabet, idx, frame), the indices must be                  *)
 (* contiguous and inside 1..NumTokenStrings(alphabet, MAXLEN); TLC prints  *)
 (* the total so that the check can verify that the chunks it submitted     *)
 (* cover the universe.  A mismatch is a tool error (Assert), not a verdict.*)
@@ -38,18 +39,22 @@ tvars == <<phase, input, stage, errs, bytes, rendered, k, j, st>>
 Rec == ndJsonDeserialize(IOEnv.TRACE)
 N == Len(Rec)
 Universe == IOEnv.UNIVERSE
-IsTok == Universe \in {"tok20", "tok31"}
-Alpha == IF Universe = "tok31" THEN Tok31 ELSE Tok20
+TokUniverses == {"tok20.raw", "tok20.top", "tok20.body", "tok31.raw", "tok31.top", "tok31.body"}
+IsTok == Universe \in TokUniverses
+Alpha == IF Universe \in {"tok31.raw", "tok31.top", "tok31.body"} THEN Tok31 ELSE Tok20
+Frame == CASE Universe \in {"tok20.top", "tok31.top"}   -> "top"
+           [] Universe \in {"tok20.body", "tok31.body"} -> "body"
+           [] OTHER                                      -> "raw"
 MaxTokLen == IF IsTok THEN atoi(IOEnv.MAXLEN) ELSE 0
 Total == IF IsTok THEN NumTokenStrings(Alpha, MaxTokLen) ELSE N
 
 \* the text record q must carry, as derived by TLC
-CaseInput(q) == IF IsTok THEN TokenStringAt(Alpha, Rec[q].idx) ELSE Rec[q].id
+CaseInput(q) == IF IsTok THEN TokenTextAt(Alpha, Rec[q].idx, Frame) ELSE Rec[q].id
 
 UniverseOK(q) ==
     /\ Rec[q].idx = Rec[1].idx + q - 1
     /\ Rec[q].idx >= 1 /\ Rec[q].idx <= Total
-    /\ IsTok => Rec[q].input = TokenStringAt(Alpha, Rec[q].idx)
+    /\ IsTok => Rec[q].input = TokenTextAt(Alpha, Rec[q].idx, Frame)
 
 ---------------------------------------------------------------------------
 NE == Len(Rec[k].ev)
